@@ -49,7 +49,6 @@ ObjectiveN(D, w, beta) ==
       DM!Sum([k \in 1..Len(D) |-> LET s == SlackOf(D, k, w) IN IF IsPos(s) THEN s ELSE Zero]))
 
 (* the learned matrix from basis and weights *)
-RECURSIVE SumMatSeq(_, _, _)
-SumMatSeq(f, i, d) == IF i > Len(f) THEN DM!ZeroMat(d, d) ELSE DM!MAdd(f[i], SumMatSeq(f, i + 1, d))
+SumMatSeq(f, i, d) == DM!SumMats(f, i, d)           \* (Mat.tla: evaluated eagerly)
 MetricFrom(basis, w) == SumMatSeq([i \in 1..Len(basis) |-> DM!MScale(w[i], DM!Outer(basis[i], basis[i]))], 1, Len(basis[1]))
 =============================================================================
